@@ -141,7 +141,10 @@ class LockModel:
         bad_bodies = set()
         self.undischarged = {}
         for o in self.panic_obs:
-            if o.status == 'violated':
+            if o.status == 'violated' or o.witness.get('discharge') == 'D-contract':
+                # D-contract: the site cannot fire for inputs inside the documented domain (a registered precedence <= 10^9);
+                # a caller outside it gets a panic — tolerable where it only fails that call, not where it would poison a
+                # process-global table for everybody else
                 bn = o.witness.get('body')
                 self.undischarged.setdefault(bn, []).append(o)
         name2id = {b.name: b.id for b in prog.bodies}
